@@ -53,8 +53,10 @@ Definition clear_flag (s : state) (fl : N -> N -> bool) (n cl : N) : N -> N -> b
 Inductive yop :=
 | YX (o : xop)
 | YFrame (n cl : N)         (* OlaServerServiceImpl::UpdateDmxData -> SourceClientDataChanged *)
-| YHousekeeping.            (* OlaServer::RunHousekeeping: GarbageCollectUniverses, then
+| YHousekeeping             (* OlaServer::RunHousekeeping: GarbageCollectUniverses, then
                                CleanStaleSourceClients on every universe *)
+| YPortSetPrio (p v : N).   (* Basic{Input,Output}Port::SetPriority(uint8_t) called on the port itself,
+                               not through the PortManager *)
 
 Definition ystep (xc : xcfg) (y : ystate) (o : yop) : youtcome :=
   let x := y_x y in
@@ -73,6 +75,14 @@ Definition ystep (xc : xcfg) (y : ystate) (o : yop) : youtcome :=
     match xstep xc x (XBase (SrcAdd n cl)) with
     | XDangling => YDangling
     | XOk x' r => YOk (mky x' (clear_flag (x_s x) (y_stale y) n cl)) r
+    end
+  | YPortSetPrio p v =>
+    match port_of (xc_cfg xc) (x_s x) p with
+    | None => YOk y RUnit
+    | Some _ =>
+      let v0 := u8 v in
+      if SOURCE_PRIORITY_MAX <? v0 then YOk y (RBool false)      (* "if (priority > MAX) return false" *)
+      else YOk (mky (set_xs x (set_pprio (x_s x) (upd (s_pprio (x_s x)) p v0))) (y_stale y)) (RBool true)
     end
   | YHousekeeping =>
     match xstep xc x (XBase GC) with
